@@ -597,6 +597,8 @@ def pub_observed(out):
     mod, fast = drivers.subject()
     if out.kind == "ok":
         v = out.value
+        if isinstance(v, tuple) and len(v) == 2:  # (oid, value) from an iterator
+            v = v[1] if v[0] == rb.oid_str(OID + (v[1] // 10,)) else v
         if isinstance(v, int) and not isinstance(v, bool):
             return ("value", (v // 10, v % 10))
         return ("value", repr(v))
@@ -609,8 +611,8 @@ def pub_observed(out):
     return ("exception", out.exc_name, str(out.exc)[:80])
 
 
-def pub_execute(cfg, driver, script, tmo):
-    """Run the K get() calls. Returns (observed list, expected list of sets, n_requests, agent errors)."""
+def pub_execute(cfg, driver, script, tmo, op="get"):
+    """Run the K calls (get(), or K steps of one getnext / getbulk(max_repetitions=1) iterator; an iterator is not asked again after an exception). Returns (observed list, expected list of sets, n_requests, agent errors)."""
     K = len(script)
     ex = PubExec(cfg)
     script = [[_tup(d) for d in lst] for lst in script]
@@ -626,8 +628,15 @@ def pub_execute(cfg, driver, script, tmo):
     if driver == "sync":
         w = drivers.SyncWorld(cfg, responder, timeout=tmo)
         try:
-            for k in range(1, K + 1):
-                outs.append(drivers.call(w.session.get, rb.oid_str(OID + (k,))))
+            if op == "get":
+                for k in range(1, K + 1):
+                    outs.append(drivers.call(w.session.get, rb.oid_str(OID + (k,))))
+            else:
+                it = iter(w.session.getnext(rb.oid_str(OID)) if op == "getnext" else w.session.getbulk(rb.oid_str(OID), max_repetitions=1))
+                for k in range(1, K + 1):
+                    outs.append(drivers.call(next, it))
+                    if outs[-1].kind != "ok":
+                        break
             import time as _t
 
             _t.sleep(0.01)
@@ -638,16 +647,24 @@ def pub_execute(cfg, driver, script, tmo):
 
         async def client(session):
             res = []
+            it = None
+            if op != "get":
+                it = (session.getnext(rb.oid_str(OID)) if op == "getnext" else session.getbulk(rb.oid_str(OID), max_repetitions=1)).__aiter__()
             for k in range(1, K + 1):
                 try:
-                    res.append(drivers.Outcome("ok", await session.get(rb.oid_str(OID + (k,)))))
+                    if it is None:
+                        res.append(drivers.Outcome("ok", await session.get(rb.oid_str(OID + (k,)))))
+                    else:
+                        res.append(drivers.Outcome("ok", await it.__anext__()))
                 except Exception as e:  # noqa: BLE001
                     res.append(drivers.Outcome("exc", exc=e))
+                    if it is not None:
+                        break
             return res
 
         out, reqs, errs = drivers.run_async(cfg, responder, client, timeout=tmo)
         if out.kind != "ok":
-            outs = [out] * K
+            outs = [out]
         else:
             outs = out.value
         nreq = len(reqs)
@@ -656,8 +673,8 @@ def pub_execute(cfg, driver, script, tmo):
     # socket before a new request is equally correct, so both readings are acceptable
     expected = []
     leftover = []
-    if all(k in ex.reqs for k in range(1, K + 1)):
-        for k in range(1, K + 1):
+    if all(k in ex.reqs for k in range(1, nreq + 1)):
+        for k in range(1, min(K, nreq) + 1):
             ex.sent = k
             alts = set()
             for queue, track in ((leftover + script[k - 1], True), (list(script[k - 1]), False)):
@@ -680,12 +697,13 @@ def pub_execute(cfg, driver, script, tmo):
 
 def pub_case_holds(case, tmo):
     cfg = Cfg.from_desc(case["cfg"])
-    observed, expected, nreq, errs = pub_execute(cfg, case["driver"], case["script"], tmo)
+    observed, expected, nreq, errs = pub_execute(cfg, case["driver"], case["script"], tmo, case.get("op", "get"))
     if errs:
         raise drivers.MachineryError("agent error: %s" % errs[:2])
-    K = len(case["script"])
+    K = len(observed)
+    expected = expected[:K] if nreq == K else expected
     if nreq != K or len(expected) != K:
-        return False, observed, expected, "the %d get() calls put %d requests on the wire" % (K, nreq)
+        return False, observed, expected, "%d calls put %d requests on the wire" % (K, nreq)
     for k in range(K):
         if observed[k] not in expected[k]:
             return False, observed, expected, "call %d produced %r, reference model allows %r" % (k + 1, observed[k], sorted(expected[k]))
@@ -714,39 +732,48 @@ def pub_work(chunk):
                 continue
             cfg = Cfg.from_desc(case["cfg"])
             k = next((i for i in range(len(observed)) if i >= len(expected) or observed[i] not in expected[i]), 0)
-            sig = "public-%s/%s/call%d after [%s] -> %s" % (
+            sig = "public-%s-%s/%s/call%d after [%s] -> %s" % (
                 case["driver"],
+                case.get("op", "get"),
                 cfg.name,
                 k + 1,
                 _fmt_script(case["script"]),
                 observed[k][0] if observed[k][0] != "value" else "value%r" % (observed[k][1],),
             )
-            res.violation(sig, "%s client, agent script %s: %s" % (case["driver"], _fmt_script(case["script"]), again[-1][3] or why), case)
+            res.violation(sig, "%s client, %s, agent script %s: %s" % (case["driver"], case.get("op", "get"), _fmt_script(case["script"]), again[-1][3] or why), case)
         elif len(res["samples"]) < 1 and sum(len(x) for x in case["script"]) > len(case["script"]):
             res.sample({"driver": case["driver"], "script": _fmt_script(case["script"]), "observed": observed})
     return res
 
 
 def pub_cases(tier):
+    G, N, B = "get", "getnext", "getbulk"
     if tier == "quick":
         plan = [
-            ("sync", Cfg("v2c"), 3, 1),
-            ("sync", Cfg("v3", auth=2, priv=2), 3, 1),
-            ("async", Cfg("v1"), 3, 1),
-            ("async", Cfg("v3"), 3, 1),
+            ("sync", G, Cfg("v2c"), 3, 1),
+            ("sync", G, Cfg("v3", auth=2, priv=2), 3, 1),
+            ("async", G, Cfg("v1"), 3, 1),
+            ("async", G, Cfg("v3"), 3, 1),
+            ("sync", N, Cfg("v1"), 3, 1),
+            ("sync", B, Cfg("v3"), 3, 1),
+            ("async", N, Cfg("v3", auth=1, priv=1), 3, 1),
+            ("async", B, Cfg("v2c"), 3, 1),
         ]
     else:
         plan = []
         for drv in ("sync", "async"):
             for cfg in (Cfg("v1"), Cfg("v2c"), Cfg("v3"), Cfg("v3", auth=2, priv=2), Cfg("v3", auth=1, priv=1)):
-                plan.append((drv, cfg, 3, 1))
-            plan.append((drv, Cfg("v2c"), 3, 2))
-            plan.append((drv, Cfg("v3", auth=2, priv=2), 2, 2))
-            plan.append((drv, Cfg("v2c"), 4, 1))
-    for drv, cfg, K, D in plan:
+                for op in (G, N, B):
+                    if not (op == B and cfg.version == "v1"):
+                        plan.append((drv, op, cfg, 3, 1))
+            for op in (G, N, B):
+                plan.append((drv, op, Cfg("v2c"), 3, 2))
+                plan.append((drv, op, Cfg("v3", auth=2, priv=2), 2, 2))
+                plan.append((drv, op, Cfg("v2c"), 4, 1))
+    for drv, op, cfg, K, D in plan:
         desc = cfg.describe()
         for sc in pub_scripts(cfg, K, D):
-            yield {"public": True, "driver": drv, "cfg": desc, "script": sc, "class": "public-%s/%s" % (drv, cfg.name)}
+            yield {"public": True, "driver": drv, "op": op, "cfg": desc, "script": sc, "class": "public-%s-%s/%s" % (drv, op, cfg.name)}
 
 
 def replay(case):
@@ -816,7 +843,7 @@ def run(tier):
         "scripts": rec.counters.get("public_scripts", 0),
         "calls": rec.counters.get("public_calls", 0),
         "repeated_because_of_a_real_timer": rec.counters.get("public_retried_ok", 0),
-        "bound": "K = 3 get() calls, at most 1 extra datagram per script (thorough: 2, and K = 4), replies to at most one request dropped",
+        "bound": "K = 3 calls (get(), or steps of one getnext / getbulk iterator), at most 1 extra datagram per script (thorough: 2, and K = 4), replies to at most one request dropped; an iterator is not asked again after an exception",
     }
     pub_calls = rec.counters.get("public_calls", 0)
     return rec.finish(
